@@ -1,5 +1,5 @@
 """Pristine worker: executes read / write jobs in a fresh interpreter (own PYTHONHASHSEED and
-environment) and returns canonical dumps.  Usage: python -B vf/worker.py < jobs.json > results.json
+environment), every job in its own fork of the freshly imported state, and returns canonical dumps.  Usage: python -B vf/worker.py < jobs.json > results.json
 """
 import json
 import os
@@ -11,29 +11,51 @@ sys.path[:0] = [ROOT, REPO]
 sys.dont_write_bytecode = True
 
 
-def main():
+def _run_one(job):
     import pycaption
     from vf import dump
     from vf.props import wcommon as W
-    jobs = json.load(sys.stdin)
+    try:
+        if job['op'] == 'read':
+            reader = getattr(pycaption, job['reader'])(**job.get('reader_kwargs', {}))
+            cs = reader.read(job['doc'], **job.get('read_kwargs', {}))
+            return {'ok': dump.caption_set(cs)}
+        elif job['op'] == 'write':
+            cs = dump.mk_caption_set(job['set'])
+            w = W.make_writer(job['writer'], job.get('opts', {}))
+            return {'ok': w.write(cs, **job.get('write_kwargs', {}))}
+        elif job['op'] == 'default_lang':
+            from pycaption.base import DEFAULT_LANGUAGE_CODE
+            return {'ok': DEFAULT_LANGUAGE_CODE}
+        return {'err': 'unknown op'}
+    except Exception as e:
+        return {'err': '%s: %s' % (type(e).__name__, str(e)[:300])}
+
+
+def main():
+    import pycaption                      # noqa: F401  (imported once; every job then runs in a fork of this
+    from vf import dump                   # noqa: F401   state, so that nothing a job leaves behind in the
+    from vf.props import wcommon as W     # noqa: F401   process - class-level caches, default arguments, module
+    jobs = json.load(sys.stdin)           #              globals - can reach the next job)
     out = []
     for job in jobs:
-        try:
-            if job['op'] == 'read':
-                reader = getattr(pycaption, job['reader'])(**job.get('reader_kwargs', {}))
-                cs = reader.read(job['doc'], **job.get('read_kwargs', {}))
-                out.append({'ok': dump.caption_set(cs)})
-            elif job['op'] == 'write':
-                cs = dump.mk_caption_set(job['set'])
-                w = W.make_writer(job['writer'], job.get('opts', {}))
-                out.append({'ok': w.write(cs, **job.get('write_kwargs', {}))})
-            elif job['op'] == 'default_lang':
-                from pycaption.base import DEFAULT_LANGUAGE_CODE
-                out.append({'ok': DEFAULT_LANGUAGE_CODE})
-            else:
-                out.append({'err': 'unknown op'})
-        except Exception as e:
-            out.append({'err': '%s: %s' % (type(e).__name__, str(e)[:300])})
+        r, w = os.pipe()
+        pid = os.fork()
+        if pid == 0:
+            os.close(r)
+            try:
+                res = _run_one(job)
+                data = json.dumps(res)
+            except BaseException as e:     # noqa
+                data = json.dumps({'err': 'worker: %r' % (e,)})
+            with os.fdopen(w, 'w') as f:
+                f.write(data)
+            os._exit(0)
+        os.close(w)
+        with os.fdopen(r) as f:
+            data = f.read()
+        os.waitpid(pid, 0)
+        out.append(json.loads(data) if data else {'err': 'worker: job process died'})
     json.dump(out, sys.stdout)
 
 
